@@ -146,10 +146,10 @@ Proof.
   - intros [d Hr]. eapply ranking_acyclic; eauto.
 Qed.
 
-Lemma sort_terminates_acyclic l : closed succ l -> (forall v, In v l -> ~ path succ v v) ->
-  exists K0, forall l0, Permutation l l0 -> forall K, K0 <= K -> exists l', sort_fuel succ K l0 = Some l'.
+Lemma sort_terminates_acyclic l : NoDup l -> closed succ l -> (forall v, In v l -> ~ path succ v v) ->
+  exists K0, forall l0, Permutation l l0 -> forall K, K0 <= K -> exists l', sort_fuel succ K l0 = Sorted l'.
 Proof.
-  intros Hc Hac. pose proof (acyclic_ranking l Hc Hac) as Hr.
+  intros Hnd Hc Hac. pose proof (acyclic_ranking l Hc Hac) as Hr.
   eexists. intros l0 P K HK. eapply sort_fuel_terminates; eauto.
 Qed.
 End A.
